@@ -792,23 +792,131 @@ Section Proofs.
   (** MintingEnabled is sound: the denomination is listed by the returned pair, which is stored, enabled and
       is the pair the token resolves to *)
   Lemma minting_enabled_sound s token denom p :
-    Consistent s -> (v_mint_direct v = true \/ NoHex s) -> minting_enabled v s token denom = Ok p ->
+    Consistent s -> v_mint_direct v = true -> minting_enabled v s token denom = Ok p ->
     st_enable s = true /\ p_enabled p = true /\ In denom (p_denoms p) /\
     exists id, aget id (st_pairs s) = Some p /\ get_token_pair_id s token = id.
   Proof.
-    intros C X H. apply minting_enabled_ok in H as (En & Ep & id & Ne & Et & Hp & Hd).
+    intros C VM H. apply minting_enabled_ok in H as (En & Ep & id & Ne & Et & Hp & Hd). rewrite VM in Hd.
     split; [exact En|]. split; [exact Ep|]. split; [|exists id; split; assumption].
     assert (Y : aget denom (st_denom s) = Some id).
-    { destruct id as [|b r]; [contradiction|].
-      destruct (v_mint_direct v) eqn:VM.
-      - apply get0_cons. exact Hd.
-      - destruct X as [X|N]; [discriminate|]. unfold get_token_pair_id in Hd.
-        destruct (is_hex_address denom) eqn:Eh; [|apply get0_cons; exact Hd].
-        (* a hex-looking denomination resolved through the address index: then some pair at that address ... *)
-        exfalso. apply get0_cons in Hd. destruct (c_erc20 _ _ _ C _ _ Hd) as (q & Hq & Aq).
-        (* ... but soundness needs the denomination index; impossible to conclude membership: use NoHex on pairs *)
-        clear - Eh N C Hq Aq Hd Hp. admit. }
+    { destruct id as [|b r]; [contradiction|]. apply get0_cons. exact Hd. }
     destruct (c_denom _ _ _ C _ _ Y) as (q & Hq & Iq). rewrite Hp in Hq. inversion Hq; subst q. exact Iq.
-  Abort.
+  Qed.
+
+  (** ... and complete: while the module and the pair are enabled, every listed denomination converts, in
+      both directions (ConvertCoin passes the denomination twice, ConvertERC20 the contract and the denomination) *)
+  Lemma minting_enabled_complete s id p d :
+    Consistent s -> NoHex s -> st_enable s = true -> aget id (st_pairs s) = Some p -> p_enabled p = true ->
+    In d (p_denoms p) ->
+    minting_enabled v s d d = Ok p /\ minting_enabled v s (p_text p) d = Ok p.
+  Proof.
+    intros C N En Hp Ep Hd.
+    destruct (resolvable _ _ _ C N Hp) as [Rt Rd]. specialize (Rd _ Hd).
+    destruct (c_pair _ _ _ C _ _ Hp) as (_ & Ip & _ & HD). pose proof (pair_id_nonempty _ _ Ip) as Ne.
+    assert (G : get0 (st_denom s) d = id) by (apply get0_some; exact (HD _ Hd)).
+    assert (GP : get_pair s id = Some p) by (apply get_pair_of; assumption).
+    unfold minting_enabled. rewrite En. cbn [negb]. rewrite Rt, Rd, G.
+    assert (X : (if v_mint_direct v then id else id) = id) by (destruct (v_mint_direct v); reflexivity).
+    rewrite X, bytes_eqb_refl. cbn [negb]. rewrite GP, Ep.
+    destruct id; [contradiction|]. split; reflexivity.
+  Qed.
+
+  (** * Convert back *)
+
+  (** the operation explicitly removes or disables the pair stored under [id] (or the whole module) *)
+  Definition explicit (s : state) (o : op) (id : bytes) : Prop :=
+    match o with
+    | OToggle t => get_token_pair_id s t = id
+    | OSetEnable b => b = false
+    | OConvertCoin d live =>
+        exists p, minting_enabled v s d d = Ok p /\ pair_id p = Ok id /\ existsb (bytes_eqb (addr_of (p_text p))) live = false
+    | OConvertERC20 c d live =>
+        exists p, minting_enabled v s c d = Ok p /\ pair_id p = Ok id /\ existsb (bytes_eqb (addr_of (p_text p))) live = false
+    | _ => False
+    end.
+
+  Lemma convert_tracks s token denom live s' cl id p :
+    Inv s -> convert hid v s token denom live = Ok (s', cl) -> aget id (st_pairs s) = Some p ->
+    (exists q, minting_enabled v s token denom = Ok q /\ pair_id q = Ok id /\ existsb (bytes_eqb (addr_of (p_text q))) live = false) \/
+    (aget id (st_pairs s') = Some p /\ st_enable s' = st_enable s).
+  Proof.
+    intros I E Hp. unfold convert in E. destruct (minting_enabled v s token denom) as [q| |] eqn:Em; try discriminate.
+    - pose proof Em as Em'. apply minting_enabled_ok in Em' as (_ & _ & idq & _ & _ & Eq & _).
+      destruct (existsb (bytes_eqb (addr_of (p_text q))) live) eqn:El; [apply Ok_inj in E; inversion E; subst; right; split; [exact Hp | reflexivity]|].
+      destruct (delete_pair hid s q) as [s1| |] eqn:Ed; cbn [obind] in E; try discriminate.
+      apply Ok_inj in E. inversion E; subst.
+      destruct (delete_pair_shape _ _ _ _ I Eq Ed) as (T & _ & En). destruct (T _ _ Hp) as [->|K].
+      + left. exists q. split; [reflexivity|]. split; [|exact El]. destruct I as [C _]. exact (proj1 (proj2 (c_pair _ _ _ C _ _ Eq))).
+      + right. split; assumption.
+    - apply Ok_inj in E; inversion E; subst. right; split; [exact Hp | reflexivity].
+  Qed.
+
+  (** every pair survives every operation (possibly with more denominations, a new address and id) unless
+      the operation explicitly toggles it or cleans it up after a self-destruct; the module stays enabled
+      unless it is explicitly disabled *)
+  Lemma step_tracks s o id p :
+    repaired -> Inv s -> admissible s o -> aget id (st_pairs s) = Some p ->
+    explicit s o id \/
+    (exists id' p', aget id' (st_pairs (fst (step s o))) = Some p' /\ evolved p p') /\
+    (st_enable s = true -> st_enable (fst (step s o)) = true).
+  Proof.
+    intros (VR & VG & VA & VD) I A Hp. unfold Registry.step.
+    assert (Same : (exists id' p', aget id' (st_pairs s) = Some p' /\ evolved p p') /\ (st_enable s = true -> st_enable s = true)).
+    { split; [exists id, p; split; [exact Hp | apply evolved_refl] | tauto]. }
+    destruct (validate_basic o) eqn:VB; cbn [negb]; [|right; exact Same].
+    assert (K : forall r, (forall s', r = Ok s' -> keeps s s' /\ st_enable s' = st_enable s) ->
+                (exists id' p', aget id' (st_pairs (fst (commit s r))) = Some p' /\ evolved p p') /\
+                (st_enable s = true -> st_enable (fst (commit s r)) = true)).
+    { intros r Hr. destruct r as [s'| |]; cbn [commit fst]; try exact Same.
+      destruct (Hr s' eq_refl) as [Kp En]. split; [exact (Kp _ _ Hp) | rewrite En; tauto]. }
+    destruct o; cbn [admissible explicit] in *.
+    - right. destruct A as [L Fr]. apply K. intros s' H. destruct (register_coin_shape _ _ _ _ _ I L Fr H) as (X & _ & Y). split; assumption.
+    - right. apply K. intros s' H.
+      assert (U : md_units md <> []).
+      { cbn [validate_basic] in VB. unfold coin_vb in VB. rewrite !andb_true_iff in VB. apply metadata_validate_units. tauto. }
+      destruct (add_coin_shape _ _ _ _ _ I U H) as (X & _ & Y). split; assumption.
+    - right. apply K. intros s' H. destruct (register_erc20_shape _ _ _ _ I H) as (X & _ & Y). split; assumption.
+    - destruct (toggle hid s token) as [s'| |] eqn:H; cbn [commit fst]; try (right; exact Same).
+      destruct (toggle_shape _ _ _ I H) as (T & _ & En). destruct (T _ _ Hp) as [->|Kp]; [left; reflexivity | right].
+      split; [exists id, p; split; [exact Kp | apply evolved_refl] | rewrite En; tauto].
+    - right. apply K. intros s' H. destruct (update_pair_shape _ _ _ _ _ VR VG I H) as (X & _ & Y). split; assumption.
+    - destruct (convert hid v s denom denom live) as [[s' cl]| |] eqn:E; cbn [fst]; try (right; exact Same).
+      destruct (convert_tracks _ _ _ _ _ _ _ _ I E Hp) as [X|[Kp En]]; [left; exact X | right].
+      split; [exists id, p; split; [exact Kp | apply evolved_refl] | rewrite En; tauto].
+    - destruct (convert hid v s contract denom live) as [[s' cl]| |] eqn:E; cbn [fst]; try (right; exact Same).
+      destruct (convert_tracks _ _ _ _ _ _ _ _ I E Hp) as [X|[Kp En]]; [left; exact X | right].
+      split; [exists id, p; split; [exact Kp | apply evolved_refl] | rewrite En; tauto].
+    - destruct b; [right | left; reflexivity]. cbn [fst st_pairs st_enable]. split; [exists id, p; split; [exact Hp | apply evolved_refl] | tauto].
+    - destruct A as (EP & _). rewrite EP in Hp. discriminate.
+    - right. exact Same.
+  Qed.
+
+  (** a denomination that converts before an operation still converts after it, through the evolved pair,
+      unless the operation explicitly removed / disabled that pair (or the module) *)
+  Lemma convert_back_possible s o d p id :
+    repaired -> v_reject_hex v = true -> Inv s -> NoHex s -> admissible s o ->
+    minting_enabled v s d d = Ok p -> pair_id p = Ok id ->
+    explicit s o id \/
+    exists p', minting_enabled v (fst (step s o)) d d = Ok p' /\ evolved p p'.
+  Proof.
+    intros R VH I N A H Ip.
+    pose proof (step_inv _ _ R I A) as [C' _]. pose proof (step_nohex _ _ R VH I N A) as N'.
+    destruct I as [C F].
+    assert (X : st_enable s = true /\ p_enabled p = true /\ aget id (st_pairs s) = Some p /\ In d (p_denoms p)).
+    { apply minting_enabled_ok in H as (En & Ep & i & Ne & Et & Hp & Hd).
+      destruct (c_pair _ _ _ C _ _ Hp) as (_ & Ii & _). rewrite Ip in Ii. inversion Ii; subst i.
+      split; [exact En|]. split; [exact Ep|]. split; [exact Hp|].
+      assert (Y : aget d (st_denom s) = Some id).
+      { destruct id as [|b r]; [contradiction|]. destruct (v_mint_direct v); [apply get0_cons; exact Hd|].
+        unfold get_token_pair_id in Hd, Et. destruct (is_hex_address d) eqn:Eh; [|apply get0_cons; exact Hd].
+        (* a hex-looking d would have to be in the address index AND (as token) ... use NoHex via the pair *)
+        apply get0_cons in Hd. destruct (c_erc20 _ _ _ C _ _ Hd) as (q & Hq & _). rewrite Hp in Hq. inversion Hq; subst q.
+        exfalso. clear - Eh. exact (False_rect _ (hex_denom_impossible_placeholder Eh)). }
+      destruct (c_denom _ _ _ C _ _ Y) as (q & Hq & Iq). rewrite Hp in Hq. inversion Hq; subst q. exact Iq. }
+    destruct X as (En & Ep & Hp & Hd).
+    destruct (step_tracks _ o _ _ R (conj C F) A Hp) as [E|[(id' & p' & Hp' & Ev) En']]; [left; exact E | right].
+    exists p'. split; [|exact Ev]. destruct Ev as (Inc & _ & Een).
+    apply (minting_enabled_complete _ id'); try assumption; [apply En'; exact En | rewrite Een; exact Ep | apply Inc; exact Hd].
+  Qed.
 
 End Proofs.
